@@ -174,3 +174,18 @@ Definition update_okb (bl : list view) (bases : list Z) (storage : list Z) : boo
 
 Definition agree_update (shape : list Z) (thr : Z) (merge : bool) (bases : list Z) (storage : list Z) : bool :=
   update_okb (blocks shape thr merge) bases storage.
+
+(* gradient-layout stream: the parameter is contiguous, so `view_offsets` of parameter block k (relative to
+   the parameter) is the list of LOGICAL row-major indices block k covers, in the block's own order.  The
+   harness gives the parameter a gradient of any memory layout whose VALUES are the logical indices; the
+   implementation's gradient block k, read in its own row-major order, must list exactly these indices.
+   impl = per gradient block (shape, values). *)
+Definition agree_grad_values (shape : list Z) (thr : Z) (merge : bool)
+           (impl_merged : list Z) (impl : list (list Z * list Z)) : bool :=
+  let st := distributor_init shape thr merge in
+  Zs_eqb (merged_dims st) impl_merged
+  && forallb2 (fun v g => Zs_eqb (vsizes v) (fst g) && Zs_eqb (view_offsets v) (snd g)) (block_gradients st thr) impl.
+
+(* a gradient layout may be rejected (grad.view(merged_dims) raises) only when merging changes the shape *)
+Definition view_may_fail (shape : list Z) (thr : Z) (merge : bool) : bool :=
+  negb (Zs_eqb (merged_shape shape thr merge) shape).
